@@ -612,7 +612,7 @@ class Interp:
             return _types.MappingProxyType(m)              # a read-only *view*: later changes of m show through
 
         def chain_map(*maps: Any) -> Any:
-            if any(not isinstance(m, dict) or any(self._has_abs(k_) for k_ in m) for m in maps):
+            if any(not (isinstance(m, dict) or type(m).__name__ == "mappingproxy") or any(self._has_abs(k_) for k_ in m) for m in maps):
                 raise AnalysisError("ABSINT", "ChainMap over mappings keyed by abstract objects outside fragment")
             return _c.ChainMap(*maps)
 
@@ -1358,6 +1358,8 @@ class Interp:
             raise AnalysisError("ALG", "a symbolic count is used as a truth value")
         if isinstance(v, OrdInt):
             raise AnalysisError("CARD", f"ordinal {v.tag} used as truth value")
+        if self._flag_class(v) is not None:
+            return v.value != 0
         if isinstance(v, (AObj, EnumVal)):
             b_ = self.special(v, "__bool__")
             if b_ is not None and not (isinstance(b_, FuncRef) and b_.fi.unit.env):
@@ -1392,6 +1394,9 @@ class Interp:
                 or isinstance(v, type({}.items())):
             return v
         if isinstance(v, ClassRef) and self.pm.is_enum(v.ci):
+            if self.pm.is_flag(v.ci):      # (3.11+) only the single flags are iterated, not the named combinations nor zero
+                return [m for k, m in self.enum_table(v.ci).items() if m.name == k and isinstance(m.value, int) and m.value
+                        and m.value & (m.value - 1) == 0]
             return [m for k, m in self.enum_table(v.ci).items() if m.name == k]      # aliases are not iterated
         if isinstance(v, AObj):
             it_m = self.special(v, "__iter__")
@@ -1437,6 +1442,17 @@ class Interp:
                 return not self.truth(v)
             if isinstance(n.op, ast.USub) and isinstance(v, (int, float)) and not isinstance(v, bool):
                 return -v
+            if isinstance(n.op, ast.UAdd) and isinstance(v, (int, float)) and not isinstance(v, bool):
+                return v
+            if isinstance(n.op, ast.Invert) and isinstance(v, int) and not isinstance(v, bool):
+                return ~v
+            if isinstance(n.op, ast.Invert) and self._flag_class(v) is not None:
+                fc_ = self._flag_class(v)
+                mask_ = 0
+                for k_, m_ in self.enum_table(fc_).items():
+                    if isinstance(m_.value, int):
+                        mask_ |= m_.value
+                return self.flag_member(fc_, mask_ & ~v.value)
             raise AnalysisError("ABSINT", f"unary operator outside fragment: {src(n)}")
         if isinstance(n, ast.Compare):
             left = self.eval(n.left, env, fi)
@@ -1662,7 +1678,33 @@ class Interp:
             raise AnalysisError("ABSINT", f"str() of abstract {v._cls} without __str__")
         return str(v)
 
+    def _flag_class(self, v: Any) -> Optional[ClassInfo]:
+        if isinstance(v, EnumVal) and self.pm.has_cls(v.cls) and self.pm.is_flag(self.pm.cls(v.cls)) and \
+                isinstance(v.value, int) and not isinstance(v.value, bool):
+            return self.pm.cls(v.cls)
+        return None
+
+    def flag_member(self, ci: ClassInfo, value: int) -> EnumVal:
+        """The member of an enum.Flag class with this value: a declared one (single flag or named combination), else the
+        pseudo-member Python builds, named after the single flags it is made of (in definition order)."""
+        table = self.enum_table(ci)
+        for k, m in table.items():
+            if m.name == k and m.value == value:
+                return m
+        singles = [m for k, m in table.items() if m.name == k and isinstance(m.value, int) and m.value and
+                   m.value & (m.value - 1) == 0]
+        mask = 0
+        for m in singles:
+            mask |= m.value
+        if value & ~mask:
+            raise AbsRaise(f"ValueError: {value!r} is not a valid {ci.name}")
+        return EnumVal(ci.name, "|".join(m.name for m in singles if m.value & value) or "0", value)
+
     def binop(self, op: ast.operator, a: Any, b: Any, n: ast.AST, inplace: bool = False) -> Any:
+        fa, fb = self._flag_class(a), self._flag_class(b)
+        if fa is not None and fb is not None and fa is fb and isinstance(op, (ast.BitOr, ast.BitAnd, ast.BitXor)):
+            v_ = a.value | b.value if isinstance(op, ast.BitOr) else a.value & b.value if isinstance(op, ast.BitAnd) else a.value ^ b.value
+            return self.flag_member(fa, v_)
         if inplace and isinstance(a, (list, set, dict)):
             # augmented assignment on a mutable container updates the object itself: every alias sees it
             if getattr(a, "_frozen", False):
@@ -1772,6 +1814,10 @@ class Interp:
                 if not isinstance(a, str):
                     raise AbsRaise(f"TypeError at {src(n)}")
                 r = a in b
+            elif self._flag_class(b) is not None:
+                if self._flag_class(a) is not self._flag_class(b):
+                    raise AbsRaise(f"TypeError: unsupported operand type(s) for 'in': {type(a).__name__!r} and {b.cls!r} at {src(n)}")
+                r = (a.value & b.value) == a.value
             elif isinstance(b, AObj) and self.special(b, "__contains__") is not None:
                 r = self.truth(self.apply_value(self.special(b, "__contains__"), [b, a], {}, n, "", None))
             else:
@@ -3555,7 +3601,7 @@ class Interp:
         # (IntEnum members are evaluated as the integers they are: arithmetic, comparison, hashing and str() agree with
         # Python; `.name` / `.value`, calling or iterating the class leave the fragment; repr() and isinstance against the
         # enum class are the known inexact corners)
-        odd = {"Flag", "IntFlag", "StrEnum", "ReprEnum"} & set(self.pm.base_names(ci))
+        odd = {"IntFlag", "StrEnum", "ReprEnum"} & set(self.pm.base_names(ci))
         if odd:
             # members of these behave as integers / strings / bit sets as well: not modelled, never approximated
             store.pop(key, None)
@@ -3620,7 +3666,8 @@ class Interp:
                 if isinstance(expr, ast.Constant):
                     val = expr.value
                 elif isinstance(expr, ast.Call) and ast.unparse(expr.func) in ("auto", "enum.auto") and not expr.args:
-                    val = name.lower() if ("StrEnum" in bases) else last_int + 1
+                    val = name.lower() if ("StrEnum" in bases) else \
+                        ((1 << last_int.bit_length()) if "Flag" in bases else last_int + 1)
                 else:
                     try:
                         val = self.eval(expr, dict(raw_vals), fake)
